@@ -185,18 +185,17 @@ def process_nodes_recursive(
                                     var_match = re.search(
                                         r"var\((--[\w-]+)\)", raw_text_color
                                     )
-                                    if var_match:
-                                        var_name = var_match.group(1)
-                                        if var_name in variables:
-                                            # Update the variable definition
-                                            var_def = variables[var_name]
-                                            update_decl_value(
-                                                var_def["decl"], tuned_rgb
-                                            )
-                                            # Update our local map so future usages see the new value
-                                            var_def["value"] = tuned_rgb
+                                    if var_match and var_match.group(1) in variables:
+                                        # Update the variable definition
+                                        var_def = variables[var_match.group(1)]
+                                        update_decl_value(var_def["decl"], tuned_rgb)
+                                        # Update our local map so future usages see the new value
+                                        var_def["value"] = tuned_rgb
                                     else:
-                                        pass  # Could not extract var name
+                                        # Fallback form or unknown name: the colour in use
+                                        # comes from this declaration, so rewrite it
+                                        update_decl_value(color_decl, tuned_rgb)
+                                        modified = True
                                 else:
                                     update_decl_value(color_decl, tuned_rgb)
                                     modified = True
